@@ -1,5 +1,5 @@
 (* Props/C20.v — property C20: repr never fails and never misstates shape, dtype or data.
-   Statements only; every proof is [exact <lemma>] (the refutation: a concrete witness).
+   Statements only; every proof is [exact <lemma>] .
 
    [repr_vector glob v] / [repr_table glob t] (Model/Repr.v) return [Exn] when display.py would
    raise, else the structured repr.  [glob] is the global row budget (set_repr_rows), [trepr_rows]
@@ -26,24 +26,12 @@ Definition C20_repr_total_statement : Prop :=
   (forall glob t, rectangular t -> (forall c, In c (tcols t) -> well_typed_vec c) ->
                   repr_table glob t <> Exn).
 
-(* It is still FALSE of the code (NEW-C20-3), on one family of inputs: a FLOAT column may hold
-   ints (Vector([1.5, 10**400]) is a legal <float> vector), and a shown int beyond the float range
-   is formatted with f"{v:.1f}", which converts it with float(v): OverflowError. *)
-Theorem C20_repr_total_statement_refuted : ~ C20_repr_total_statement.
-Proof. exact (fun H => proj1 H 12%Z huge_in_float huge_in_float_well_typed huge_in_float_raises). Qed.
-Print Assumptions C20_repr_total_statement_refuted.
-
-(* What holds — the only side condition left is [float_ints_in_range] (a float column holds no
-   int beyond the float range): repr never raises for NaN, +-inf, None, nested Vectors, cells
-   equal to '...', empty, any length, any width, any names (str or not, '...' included), any
-   budget (negative, zero, odd). *)
-Theorem C20_repr_total_partial :
-  (forall glob v, well_typed_vec v -> float_ints_in_range v -> repr_vector glob v <> Exn) /\
-  (forall glob t, rectangular t ->
-                  (forall c, In c (tcols t) -> well_typed_vec c /\ float_ints_in_range c) ->
-                  repr_table glob t <> Exn).
+(* It holds: for NaN, +-inf, ints beyond the float range inside float columns, None, nested
+   Vectors, cells equal to '...', empty, any length, any width, any names (str or not, '...'
+   included), any budget (negative, zero, odd). *)
+Theorem C20_repr_total : C20_repr_total_statement.
 Proof. exact (conj vector_total table_total). Qed.
-Print Assumptions C20_repr_total_partial.
+Print Assumptions C20_repr_total.
 
 (* ------------------------------------------------------------------ purity *)
 
@@ -156,17 +144,16 @@ Example C20_example_vector :
   let f x := Some (VFloat x) in
   let v := mkVec (Some (NNonStr false false)) (Some (mkD KFloat true))
                  [f (FFinite true); f FNan; None; f FPosInf; f (FFinite false); f FNegInf; Some (VIntLike false)] in
-  well_typed_vec v /\ float_ints_in_range v /\
+  well_typed_vec v /\
   repr_vector 5%Z v =
     Ret (VRLines true [IRow 0 FmtFix1; IRow 1 FmtG; IEll; IRow 5 FmtG; IRow 6 FmtFix1] 7 (mkD KFloat true)) /\
   repr_vector 1%Z v = Ret (VRLines true [IEll] 7 (mkD KFloat true)) /\
   repr_vector (-3)%Z v = Ret (VRLines true [IEll] 7 (mkD KFloat true)) /\
   half (set_repr_rows None) = 6.
 Proof.
-  cbv zeta. split; [|split].
+  cbv zeta. split.
   - intros s Hs. simpl in Hs. unfold fits. simpl.
     repeat (destruct Hs as [Hs|Hs]; [inversion Hs; exact I|]). destruct Hs.
-  - intros _ Hs. simpl in Hs. repeat (destruct Hs as [Hs|Hs]; [discriminate|]). destruct Hs.
   - vm_compute. repeat split.
 Qed.
 
@@ -176,16 +163,15 @@ Qed.
 Example C20_example_nested_and_dots :
   let v := mkVec (Some (NStr false true)) (Some (mkD KObject true))
                  [Some (VVector true); Some (VStr true); Some (VIntLike false); None; Some (VStr true); Some (VVector false)] in
-  well_typed_vec v /\ float_ints_in_range v /\
+  well_typed_vec v /\
   repr_vector 4%Z v =
     Ret (VRLines true [IRow 0 FmtStr; IRow 1 FmtRepr; IEll; IRow 4 FmtRepr; IRow 5 FmtStr] 6 (mkD KObject true)) /\
   repr_vector 12%Z v =
     Ret (VRLines true [IRow 0 FmtStr; IRow 1 FmtRepr; IRow 2 FmtStr; IRow 3 FmtNone; IRow 4 FmtRepr; IRow 5 FmtStr]
                  6 (mkD KObject true)).
 Proof.
-  cbv zeta. split; [|split].
+  cbv zeta. split.
   - intros s _. exact I.
-  - intros Hf. discriminate Hf.
   - vm_compute. split; reflexivity.
 Qed.
 
@@ -242,3 +228,15 @@ Example C20_example_first_cell :
   repr_table 12%Z (t false) =
     Ret (TRTable None None [CItems [IRow 0 FmtStr; IRow 1 FmtStr]] 2 1 (FOne (mkD KObject false))).
 Proof. cbv zeta. split; vm_compute; reflexivity. Qed.
+
+(* Vector([1.5, 10**400]): a float column may hold an int beyond the float range; it is shown by
+   its digits (str) *)
+Example C20_example_huge_int_in_float_column :
+  let v := mkVec None (Some (mkD KFloat false)) [Some (VFloat (FFinite false)); Some (VIntLike true)] in
+  well_typed_vec v /\
+  repr_vector 12%Z v = Ret (VRLines false [IRow 0 FmtG; IRow 1 FmtStr] 2 (mkD KFloat false)).
+Proof.
+  cbv zeta. split.
+  - intros s Hs. simpl in Hs. destruct Hs as [Hs|[Hs|[]]]; inversion Hs; exact I.
+  - reflexivity.
+Qed.
